@@ -1,4 +1,4 @@
-\* drift (informational): the result is a truncation of the input, and the one the transcribed algorithm computes
+\* gating invariants first, then the drift ones (Shape, FuncAgrees: stricter than C26, informational)
 CONSTANTS
   Orig = FALSE
   GW <- TGW
@@ -9,5 +9,5 @@ CONSTANTS
   Delims <- None
 INIT TInit
 NEXT TNext
-INVARIANTS Shape FuncAgrees
+INVARIANTS NoPanic NoHang WidthBound Shape FuncAgrees
 POSTCONDITION Accepted
